@@ -20,27 +20,27 @@ CLAIMS = {
  "C09": ("seq", "SeqTrace compares a Dump backfill taken after every step with EventOf(document) for every document of the specification's state, in CAS order between the markers"),
  "C11": ("seq", "TLC property C11_OtherCollectionsUnchanged on the design; SeqTrace checks that the projection of the same keys in the two other collections and their feeds never changes"),
  "C17": ("seq", "TLC property C17_RevIncrementsByOne on the design; SeqTrace compares $document.revid, the number inside $document, live RevNo and backfill RevNo with the specification's revision after every step"),
- "C04": ("hlc", "RosmarHLC (hybrid logical clock, non-monotonic physical clock, several buckets, persisted marks, restarts) is model-checked by TLC (StrictlyIncreasing, AboveBeforeRestart; witness: without re-seeding on open the property fails); "
-         "TLC-simulated scripts of clock readings (standing still, jumping back), writes through rotating entry points on an in-memory and an on-disk bucket, restarts and re-opens run on the real code with an injected clock, followed by bursts of concurrent writers; "
+ "C04": ("hlc", "RosmarHLC (hybrid logical clock, non-monotonic physical clock, several buckets, persisted marks, restarts) is model-checked by TLC (StrictlyIncreasing, AboveBeforeRestart on the sequences of values handed out; witnesses: without re-seeding on open, or with a caller-chosen CAS lowering the persisted mark, the property fails; an inductive invariant is discharged by Apalache for unbounded integers); "
+         "TLC-simulated scripts of clock readings (standing still, jumping back), writes through rotating entry points on an in-memory and an on-disk bucket, writes with caller-chosen CAS below/above the mark, restarts and re-opens run on the real code with an injected clock, followed by bursts of concurrent writers; "
          "HLCTrace validates every CAS handed out (returned, read back, on the feed) and the commit order of concurrent ones"),
  "C10": ("crash", "TLC-generated histories x every crash position (operation index x 14 hook sites around and inside the write transaction) are executed by a child process that SIGKILLs itself at the position; a different process re-opens the on-disk bucket and "
-         "SeqTrace!Reopen requires the acknowledged state plus either nothing or one whole RosmarStore outcome of the in-flight call (body, xattrs, CAS, expiry, revision together), the high-water marks covering every document, and the same UUID, collections, design documents and a re-armed expiry timer"),
- "C12": ("seq", "SeqTrace computes, from the specification's current documents, the rows a non-stale view query must return (map function applied to every document with a body or xattrs, JSON collation order, "
-         "key / range / limit / descending / count-reduce variants) and compares them after every step of every TLC-generated behaviour with the incrementally maintained index, and at the end of each behaviour with a freshly built one"),
- "C19": ("seq", "SeqTrace compares, after every step, three SQL queries over $_keyspace (all rows with id/body/xattrs; filter on a body property; filter on an xattr property) with the specification's live documents of that collection, on in-memory (pre-recorded iterator) and on-disk (streaming iterator) buckets"),
+         "SeqTrace!Reopen requires the acknowledged state plus either nothing or one whole RosmarStore outcome of the in-flight call (body, xattrs, CAS, expiry, revision together), the high-water marks covering every document, and the same UUID, collections, design documents and a re-armed expiry timer; a pending expiration whose deadline passes while the bucket is closed must still fire after the re-open"),
+ "C12": ("seq", "RosmarView (the incrementally maintained index: marks, process clock, caller-chosen CAS, purge, design-document replacement) is model-checked by TLC (UpToDateIsExact; three witnesses must violate it); SeqTrace computes, from the specification's current documents, the rows a non-stale view query must return (map function applied to every document with a body or xattrs, JSON collation order, "
+         "key / range (inclusive and exclusive ends exactly on a key, both directions) / limit / descending / count-reduce variants) and compares them after every step of every TLC-generated behaviour with the incrementally maintained index - queried before and after writes to other collections, every step and every third step - and at the end of each behaviour with a freshly built one"),
+ "C19": ("seq", "SeqTrace compares, after every step, five SQL queries over $_keyspace (all rows with id/body/xattrs; filter on a body property; filter on an xattr property; documents without xattrs; a projection whose first column is NULL for some rows) with the specification's live documents of that collection, on in-memory (pre-recorded iterator) and on-disk (streaming iterator) buckets"),
  "C13": ("life", "RosmarLife (registry, handles, stores, collections, feeds) is model-checked by TLC (CountEqualsOpenHandles, DiskRegisteredIffOpen, OpenHandleHasStore, DiskDataSurvivesClose, OtherHandlesUnaffectedByClose); "
-         "TLC-simulated action lists (open in every mode / close / close again / CloseAndDelete / write / drop over 4 handles, 2 names, 3 URLs) are executed on the real code and LifeTrace validates, after every action, each call's result class, what every handle can read, the registry and the data on disk"),
+         "TLC-simulated action lists (open in every mode / close / close again / CloseAndDelete / write / drop over 4 handles, 2 names, 3 URLs, 3 collections, starting from 15 directed prefixes) are executed on the real code and LifeTrace validates, after every action, each call's result class, what every handle can read, the registry and the data on disk"),
  "C14": ("exp", "RosmarExpiry is model-checked by TLC (TimerCoversEarliest, ExpiredSoon; witness: without Touch arming the timer the invariant fails); TLC-simulated scripts that set, shorten, lengthen, preserve and clear deadlines 2-4 s ahead "
-         "are executed on in-memory and on-disk buckets (incl. reopen); ExpTrace validates the expiry in force and the timer's state after every call and the real-time timeline (readable before T, tombstone and deletion event within 4 s after T)"),
+         "are executed on in-memory and on-disk buckets (incl. reopen, drop-and-re-create of the collection, buckets whose expiry machinery has already run); ExpTrace validates the expiry in force and the timer's state after every call and the real-time timeline (readable before T, tombstone and deletion event within 4 s after T)"),
  "C16": ("life", "RosmarLife's feed part is model-checked by TLC (RunningFeedHasOpenStore, DoneIffEnded, FeedsEndOnlyForAReason); the same executed action lists (live / dump / multi-collection / bucket-level feeds started through any handle, "
          "terminator closes, drops, closes, deletion, writes) are validated by LifeTrace: exactly one callback per write for every feed that should be running, none after the end, done channel closed iff ended, feed goroutine count"),
  "C20": ("life", "LifeTrace treats any panic, hang (4 s watchdog per call), process crash, leaked feed goroutine or unclosed done channel in the executed lifecycle behaviours as a violation; "
          "the concurrent families (gate scheduler) additionally replay close/delete against in-flight writers and feeds"),
  "C03": ("conc", "RosmarConc (clients, feed, runner at critical-section granularity) is model-checked by TLC for the intended design (NoLostUpdate, AtMostOneReplaces, UpdatesApplied); "
-         "every maximal interleaving TLC finds for two clients x {Set, WriteCas, Update, Incr, Get, Remove, sub-document and xattr variants} is replayed on real goroutines through the gate scheduler and the recorded "
+         "every maximal interleaving TLC finds for two clients x {Set, WriteCas, Update, Incr, Get, Remove; KV with options, sub-document, xattr and xattr-on-tombstone variants} is replayed on real goroutines through the gate scheduler and the recorded "
          "history is validated by SeqTrace in commit order (each result must be the sequential outcome at its linearisation point; Update-style callbacks must be stored on the version they were shown)"),
  "C15": ("conc", "RosmarConc with a checkpointed feed that is stopped and restarted: TLC checks FinalVersionDelivered and CheckpointNotAboveDelivered on the design; TLC's interleavings of writers, "
-         "deliveries, stop and restart are replayed through the gate scheduler and SeqTrace's feeds line checks that the runs together deliver every final version and that the persisted checkpoint never exceeds what was delivered"),
+         "deliveries, stop and restart (preferring those where the stop discards the mutation right after the checkpoint; half of them with the physical clock standing still so that CAS values are consecutive) are replayed through the gate scheduler and SeqTrace's feeds line checks that the runs together deliver every final version and that the persisted checkpoint never exceeds what was delivered"),
  "C18": ("seq", "TLC property C18_OnlyAddressedProperty on the design; SeqTrace validates sub-document writes/reads on object bodies (present, absent, nested, through non-objects) against RosmarStore's sub-document operators"),
 }
 PENDING = {
